@@ -242,7 +242,7 @@ def classify(step):
         return 'panic', step['detail']
     d = step['detail']
     if not step['reply']:
-        m = re.search(r'expected=(\S+) observed_code=(\d+)', d)
+        m = re.search(r'expected=(\S+) observed_code=(\d+)( short-read got=\d+ want=\d+ prefix=1 free=\d+| data-differs at=\d+| long-read)?', d)
         return 'reply', (m.group(0) if m else d)
     if step['nwf']:
         m = re.search(r'wf=(\S+)', d)
